@@ -590,7 +590,12 @@ impl Property for C15 {
         }));
         let (bytes, router) = match built {
             Ok(x) => x,
+            Err(pi) if crate::harness::app::is_refusal(&pi.msg) && !pi.msg.contains("Can't merge Ohkamis") => {
+                obs.fail(format!("valid-configuration-refused:{}", crate::core::panic::stem(&pi.msg).chars().take(50).collect::<String>()), format!("the application was refused at build time: {}", pi.msg));
+                return;
+            }
             Err(pi) if crate::harness::app::is_refusal(&pi.msg) => {
+                obs.label_dyn(&format!("refusal:{}", crate::core::panic::stem(&pi.msg).chars().take(60).collect::<String>()));
                 obs.rejected_config = true;
                 return;
             }
